@@ -555,7 +555,9 @@ def run(ctx):
     try:
         dsp = dsp_constants(ctx)
     except (AnchorError, AttributeError) as e:
-        ctx.tie_broken("dsp-translator", str(e))
+        # same policy as vlib.Ctx.step_consts: an unreadable source falls back to the pinned tree's values; the runs below decide
+        ctx.degraded.append(("props.c19.dsp_constants", str(e)))
+        ctx.log(f"dsp constants could not be read from the current source ({e}); using the pinned tree's values")
         dsp = {"gap_d": 2.0 ** -50, "gap_f": 0.0, "dcd_sr": 48000, "dcd_N": 120, "dcd_freqs": [2400, 3600]}
     ctx.log(f"harness built at +{time.time() - t0:.1f}s")
     table_checks(ctx, exe)
